@@ -35,7 +35,7 @@ def big_documents(run, n):
         meta = {a: "m%d" % r.randint(1, nm) for a in BIG_NAMES}
         case = {"proc": r.choice(["repodata", "cli_sign"]), "input": "ok",
                 "doc": {"pk": sorted(pk), "cd": None if cd is None else sorted(cd), "meta": meta,
-                        "pre": r.choice(["absent", "empty", "stale_gone", "stale_present", "stale_own_key", "junk"]), "extra": r.random() < .5, "rich": True}}
+                        "pre": r.choice(["absent", "empty", "stale_gone", "stale_present", "stale_own_key", "current_own_key", "junk"]), "extra": r.random() < .5, "rich": True}}
         ev, tr, before, after, ctx = faults.run_case(case, workdir, run.seed)
         run.evaluations += 1
         if ev["completed"]:
